@@ -1,24 +1,612 @@
 package interp
 
-// Goroutine scheduling for interpreted programs (cooperative, one baton). See sched_impl below.
+// Cooperative scheduler for interpreted goroutines (DESIGN §2.6): goroutines are real Go goroutines that run one at
+// a time under a baton; channels, select, close, mutexes and atomics are implemented here; at every blocking
+// synchronisation operation the next goroutine to run is a decision of the path explorer, so all interleavings
+// at synchronisation granularity are explored within a preemption bound.
 
 import (
+	"fmt"
 	"go/token"
+	"go/types"
+	"sync"
 
 	"golang.org/x/tools/go/ssa"
 )
 
+type gstate int
+
+const (
+	gRunnable gstate = iota
+	gBlocked
+	gDone
+)
+
+type G struct {
+	id     int
+	resume chan struct{}
+	state  gstate
+	killed bool
+	// blocked on:
+	sel    *selWait
+	lockOn *lockState
+	wantW  bool
+	what   string
+}
+
+type schan struct {
+	id     int
+	buf    []value
+	cap    int
+	closed bool
+	sendq  []*selCase // blocked senders
+	recvq  []*selCase // blocked receivers
+}
+
+type selCase struct {
+	g    *G
+	w    *selWait
+	idx  int
+	ch   *schan
+	send bool
+	val  value
+}
+
+type selWait struct {
+	cases  []*selCase
+	fired  int // index of the case that completed, -1 while waiting
+	recv   value
+	recvOK bool
+}
+
+type lockState struct {
+	writer  *G
+	readers int
+}
+
+type scheduler struct {
+	gs          []*G
+	cur         *G
+	main        *G
+	nextChan    int
+	locks       map[*value]*lockState
+	pendingEnd  interface{} // pathEnd or other panic raised in a child goroutine, to be re-raised in main
+	wg          sync.WaitGroup
+	preemptions int
+	MaxPreempt  int
+	draining    bool
+	events      []string
+}
+
+var sch *scheduler
+
+func resetScheduler() {
+	m := &G{id: 0, resume: make(chan struct{}, 1), state: gRunnable}
+	sch = &scheduler{gs: []*G{m}, cur: m, main: m, locks: map[*value]*lockState{}, MaxPreempt: 2}
+	if X != nil && X.MaxPreempt > 0 {
+		sch.MaxPreempt = X.MaxPreempt
+	}
+}
+
 func runMain(i *interpreter, fn *ssa.Function, args []value) {
+	resetScheduler()
 	call(i, nil, token.NoPos, fn, args)
 }
 
-func killGoroutines() {}
+// killGoroutines unwinds every interpreted goroutine that is still alive at the end of a path.
+func killGoroutines() {
+	if sch == nil {
+		return
+	}
+	for _, g := range sch.gs {
+		if g != sch.main && g.state != gDone {
+			g.killed = true
+			g.state = gDone
+			select {
+			case g.resume <- struct{}{}:
+			default:
+			}
+		}
+	}
+	sch.wg.Wait()
+}
 
-func schedPoint(what string, obj value) {}
+func numGoroutines() value {
+	n := 0
+	for _, g := range sch.gs {
+		if g.state != gDone {
+			n++
+		}
+	}
+	return n
+}
 
-func numGoroutines() value { return 1 }
+// spawn implements the go statement.
+func spawn(i *interpreter, fn value, args []value) {
+	g := &G{id: len(sch.gs), resume: make(chan struct{}, 1), state: gRunnable}
+	sch.gs = append(sch.gs, g)
+	sch.wg.Add(1)
+	go func() {
+		defer sch.wg.Done()
+		<-g.resume
+		if g.killed {
+			return
+		}
+		defer func() {
+			r := recover()
+			g.state = gDone
+			if r != nil {
+				if pe, ok := r.(pathEnd); ok && pe.kind == endKilled {
+					return
+				}
+				if g.killed {
+					return
+				}
+				// a path end or an uncaught panic in a child goroutine ends the path: hand it to main
+				if sch.pendingEnd == nil {
+					sch.pendingEnd = r
+				}
+				sch.main.state = gRunnable
+				sch.cur = sch.main
+				sch.main.resume <- struct{}{}
+				return
+			}
+			// normal termination: pass the baton
+			next := pickNext(nil)
+			if next == nil {
+				// nobody can run: main must be blocked -> deadlock, reported in main
+				sch.pendingEnd = deadlockEnd()
+				sch.cur = sch.main
+				sch.main.state = gRunnable
+				sch.main.resume <- struct{}{}
+				return
+			}
+			sch.cur = next
+			next.resume <- struct{}{}
+		}()
+		call(i, nil, token.NoPos, fn, args)
+	}()
+}
 
-func extMutexLock(fr *frame, args []value) value    { schedPoint("Lock", args[0]); return nil }
-func extMutexUnlock(fr *frame, args []value) value  { schedPoint("Unlock", args[0]); return nil }
-func extMutexRLock(fr *frame, args []value) value   { schedPoint("RLock", args[0]); return nil }
-func extMutexRUnlock(fr *frame, args []value) value { schedPoint("RUnlock", args[0]); return nil }
+type deadlockT struct{ msg string }
+
+func deadlockEnd() interface{} {
+	var blocked []string
+	for _, g := range sch.gs {
+		if g.state == gBlocked {
+			blocked = append(blocked, fmt.Sprintf("g%d(%s)", g.id, g.what))
+		}
+	}
+	return deadlockT{fmt.Sprintf("deadlock: every goroutine is blocked: %v", blocked)}
+}
+
+// runnable lists the goroutines that can run now.
+func runnable() []*G {
+	var out []*G
+	for _, g := range sch.gs {
+		if g.state == gRunnable {
+			out = append(out, g)
+		}
+	}
+	return out
+}
+
+// pickNext chooses the next goroutine among the runnable ones (a decision when there are several).
+// self != nil means the current goroutine is still enabled (choosing another one is a preemption).
+func pickNext(self *G) *G {
+	rs := runnable()
+	if len(rs) == 0 {
+		return nil
+	}
+	if sch.draining {
+		// deterministic: the current goroutine if it is still enabled, else another non-main one, else main
+		if self != nil {
+			return self
+		}
+		for _, g := range rs {
+			if g != sch.main {
+				return g
+			}
+		}
+		return sch.main
+	}
+	if self != nil {
+		if sch.preemptions >= sch.MaxPreempt {
+			return self
+		}
+		// order: self first, so that alternative 0 is "no preemption"
+		ord := []*G{self}
+		for _, g := range rs {
+			if g != self {
+				ord = append(ord, g)
+			}
+		}
+		if len(ord) == 1 {
+			return self
+		}
+		c := X.schedChoice(len(ord))
+		if c != 0 {
+			sch.preemptions++
+		}
+		return ord[c]
+	}
+	if len(rs) == 1 {
+		return rs[0]
+	}
+	return rs[X.schedChoice(len(rs))]
+}
+
+// schedChoice is a decision that is not a harness draw.
+func (x *Exec) schedChoice(n int) int {
+	if d, ok := x.nextDecision("sched"); ok {
+		return d.Choice
+	}
+	for i := n - 1; i >= 1; i-- {
+		x.pushAlt(Decision{Kind: "sched", Choice: i})
+	}
+	x.trace = append(x.trace, Decision{Kind: "sched", Choice: 0})
+	return 0
+}
+
+// transfer gives the baton to next and suspends the current goroutine until it is resumed.
+func transfer(next *G) {
+	me := sch.cur
+	if next == me {
+		return
+	}
+	sch.cur = next
+	next.resume <- struct{}{}
+	<-me.resume
+	afterResume(me)
+}
+
+func afterResume(me *G) {
+	if me.killed {
+		panic(pathEnd{endKilled, ""})
+	}
+	if me == sch.main && sch.pendingEnd != nil {
+		r := sch.pendingEnd
+		sch.pendingEnd = nil
+		if d, ok := r.(deadlockT); ok {
+			X.Violate("deadlock", d.msg, "")
+			panic(pathEnd{endViolation, d.msg})
+		}
+		panic(r)
+	}
+}
+
+// yield is a scheduling point at which the current goroutine stays enabled.
+func yield() {
+	if sch == nil || len(sch.gs) == 1 {
+		return
+	}
+	next := pickNext(sch.cur)
+	transfer(next)
+}
+
+// block suspends the current goroutine (state already set to gBlocked) until somebody makes it runnable.
+func block(what string) {
+	me := sch.cur
+	me.what = what
+	next := pickNext(nil)
+	if next == nil {
+		d := deadlockEnd().(deadlockT)
+		if me == sch.main {
+			me.state = gRunnable
+			X.Violate("deadlock", d.msg, "")
+			panic(pathEnd{endViolation, d.msg})
+		}
+		sch.pendingEnd = d
+		sch.main.state = gRunnable
+		next = sch.main
+	}
+	sch.cur = next
+	next.resume <- struct{}{}
+	<-me.resume
+	afterResume(me)
+}
+
+func schedPoint(what string, obj value) { yield() }
+
+// drainOthers runs every other runnable goroutine, deterministically, until only main can run.
+func drainOthers() {
+	if sch == nil || sch.cur != sch.main {
+		return
+	}
+	sch.draining = true
+	defer func() { sch.draining = false }()
+	for {
+		var other *G
+		for _, g := range sch.gs {
+			if g != sch.main && g.state == gRunnable {
+				other = g
+				break
+			}
+		}
+		if other == nil {
+			return
+		}
+		transfer(other)
+	}
+}
+
+// ---- channels ----
+
+func makeChan(capacity int) *schan {
+	sch.nextChan++
+	return &schan{id: sch.nextChan, cap: capacity}
+}
+
+func removeCase(q []*selCase, c *selCase) []*selCase {
+	for i, x := range q {
+		if x == c {
+			return append(q[:i:i], q[i+1:]...)
+		}
+	}
+	return q
+}
+
+// fire completes waiting case c (of another goroutine) and makes its goroutine runnable.
+func fire(c *selCase, v value, ok bool) {
+	w := c.w
+	w.fired = c.idx
+	w.recv, w.recvOK = v, ok
+	for _, o := range w.cases {
+		if o.ch != nil {
+			o.ch.sendq = removeCase(o.ch.sendq, o)
+			o.ch.recvq = removeCase(o.ch.recvq, o)
+		}
+	}
+	c.g.state = gRunnable
+}
+
+// trySend / tryRecv perform the operation if it can proceed now.
+func trySend(ch *schan, v value) bool {
+	if ch.closed {
+		panic(targetPanic{iface{types.Typ[types.String], "send on closed channel"}})
+	}
+	if len(ch.recvq) > 0 {
+		r := ch.recvq[0]
+		fire(r, v, true)
+		return true
+	}
+	if len(ch.buf) < ch.cap {
+		ch.buf = append(ch.buf, v)
+		return true
+	}
+	return false
+}
+
+func tryRecv(ch *schan) (value, bool, bool) {
+	if len(ch.buf) > 0 {
+		v := ch.buf[0]
+		ch.buf = ch.buf[1:]
+		// a blocked sender can now move its value into the buffer
+		if len(ch.sendq) > 0 {
+			s := ch.sendq[0]
+			ch.buf = append(ch.buf, s.val)
+			fire(s, nil, false)
+		}
+		return v, true, true
+	}
+	if len(ch.sendq) > 0 {
+		s := ch.sendq[0]
+		v := s.val
+		fire(s, nil, false)
+		return v, true, true
+	}
+	if ch.closed {
+		return nil, false, true
+	}
+	return nil, false, false
+}
+
+func chanSend(chv value, v value) {
+	ch, _ := chv.(*schan)
+	yield()
+	if ch == nil {
+		sch.cur.state = gBlocked
+		block("send on nil channel")
+		return
+	}
+	if trySend(ch, v) {
+		return
+	}
+	me := sch.cur
+	w := &selWait{fired: -1}
+	c := &selCase{g: me, w: w, idx: 0, ch: ch, send: true, val: v}
+	w.cases = []*selCase{c}
+	ch.sendq = append(ch.sendq, c)
+	me.state = gBlocked
+	me.sel = w
+	block(fmt.Sprintf("send on chan %d", ch.id))
+	if ch.closed && w.fired < 0 {
+		panic(targetPanic{iface{types.Typ[types.String], "send on closed channel"}})
+	}
+}
+
+func chanRecv(chv value, elemT types.Type) (value, bool) {
+	ch, _ := chv.(*schan)
+	yield()
+	if ch == nil {
+		sch.cur.state = gBlocked
+		block("receive from nil channel")
+		return zero(elemT), false
+	}
+	if v, ok, done := tryRecv(ch); done {
+		if !ok {
+			return zero(elemT), false
+		}
+		return v, true
+	}
+	me := sch.cur
+	w := &selWait{fired: -1}
+	c := &selCase{g: me, w: w, idx: 0, ch: ch}
+	w.cases = []*selCase{c}
+	ch.recvq = append(ch.recvq, c)
+	me.state = gBlocked
+	me.sel = w
+	block(fmt.Sprintf("receive on chan %d", ch.id))
+	if !w.recvOK {
+		return zero(elemT), false
+	}
+	return w.recv, true
+}
+
+func chanClose(chv value) {
+	ch, _ := chv.(*schan)
+	yield()
+	if ch == nil {
+		panic(targetPanic{iface{types.Typ[types.String], "close of nil channel"}})
+	}
+	if ch.closed {
+		panic(targetPanic{iface{types.Typ[types.String], "close of closed channel"}})
+	}
+	ch.closed = true
+	for len(ch.recvq) > 0 {
+		fire(ch.recvq[0], nil, false)
+	}
+	for len(ch.sendq) > 0 {
+		// blocked senders panic when they resume
+		s := ch.sendq[0]
+		s.w.fired = -1
+		ch.sendq = ch.sendq[1:]
+		s.g.state = gRunnable
+	}
+}
+
+// selectOp implements the select statement. Returns (chosen index or -1 for default, recvOK, received value).
+func selectOp(instr *ssa.Select, chans []value, sends []value) (int, bool, value) {
+	// which cases can proceed now?
+	ready := func() []int {
+		var r []int
+		for i, st := range instr.States {
+			ch, _ := chans[i].(*schan)
+			if ch == nil {
+				continue
+			}
+			if st.Dir == types.SendOnly {
+				if ch.closed || len(ch.recvq) > 0 || len(ch.buf) < ch.cap {
+					r = append(r, i)
+				}
+			} else {
+				if len(ch.buf) > 0 || len(ch.sendq) > 0 || ch.closed {
+					r = append(r, i)
+				}
+			}
+		}
+		return r
+	}
+	if instr.Blocking {
+		yield()
+	}
+	rs := ready()
+	if len(rs) > 0 {
+		c := rs[0]
+		if len(rs) > 1 {
+			c = rs[X.schedChoice(len(rs))] // Go picks pseudo-randomly among the ready cases: every pick is explored
+		}
+		ch := chans[c].(*schan)
+		if instr.States[c].Dir == types.SendOnly {
+			trySend(ch, sends[c])
+			return c, false, nil
+		}
+		v, ok, _ := tryRecv(ch)
+		return c, ok, v
+	}
+	if !instr.Blocking {
+		return -1, false, nil
+	}
+	me := sch.cur
+	w := &selWait{fired: -1}
+	for i, st := range instr.States {
+		ch, _ := chans[i].(*schan)
+		if ch == nil {
+			continue
+		}
+		c := &selCase{g: me, w: w, idx: i, ch: ch}
+		if st.Dir == types.SendOnly {
+			c.send, c.val = true, sends[i]
+			ch.sendq = append(ch.sendq, c)
+		} else {
+			ch.recvq = append(ch.recvq, c)
+		}
+		w.cases = append(w.cases, c)
+	}
+	me.state = gBlocked
+	me.sel = w
+	block("select")
+	return w.fired, w.recvOK, w.recv
+}
+
+// ---- mutexes ----
+
+func lockOf(p value) *lockState {
+	addr, ok := p.(*value)
+	if !ok {
+		panic(fmt.Sprintf("mutex receiver %T", p))
+	}
+	ls := sch.locks[addr]
+	if ls == nil {
+		ls = &lockState{}
+		sch.locks[addr] = ls
+	}
+	return ls
+}
+
+func wakeLockWaiters(ls *lockState) {
+	for _, g := range sch.gs {
+		if g.state == gBlocked && g.lockOn == ls {
+			g.state = gRunnable // they re-check the lock when they run
+			g.lockOn = nil
+		}
+	}
+}
+
+func extMutexLock(fr *frame, args []value) value {
+	ls := lockOf(args[0])
+	yield()
+	for ls.writer != nil || ls.readers > 0 {
+		me := sch.cur
+		me.state = gBlocked
+		me.lockOn = ls
+		block("Lock")
+	}
+	ls.writer = sch.cur
+	return nil
+}
+
+func extMutexUnlock(fr *frame, args []value) value {
+	ls := lockOf(args[0])
+	if ls.writer == nil {
+		panic(targetPanic{iface{types.Typ[types.String], "sync: unlock of unlocked mutex"}})
+	}
+	ls.writer = nil
+	wakeLockWaiters(ls)
+	yield()
+	return nil
+}
+
+func extMutexRLock(fr *frame, args []value) value {
+	ls := lockOf(args[0])
+	yield()
+	for ls.writer != nil {
+		me := sch.cur
+		me.state = gBlocked
+		me.lockOn = ls
+		block("RLock")
+	}
+	ls.readers++
+	return nil
+}
+
+func extMutexRUnlock(fr *frame, args []value) value {
+	ls := lockOf(args[0])
+	if ls.readers <= 0 {
+		panic(targetPanic{iface{types.Typ[types.String], "sync: RUnlock of unlocked RWMutex"}})
+	}
+	ls.readers--
+	wakeLockWaiters(ls)
+	yield()
+	return nil
+}
